@@ -179,11 +179,21 @@ func (s *State) Revert(header *core.Header, update *core.StateUpdate) error {
 		classHashes = append(classHashes, &hash)
 	}
 
+	// Update also registers the definitions supplied for the classes of deployed contracts
+	// (sync fetches them when the state does not know the class), declared or not.
+	declaredCount := len(classHashes)
+	for _, classHash := range update.StateDiff.DeployedContracts {
+		classHashes = append(classHashes, classHash)
+	}
+
 	// Revert the classes
 	dirtyClasses := make(map[felt.Felt]core.ClassDefinition)
-	for _, hash := range classHashes {
+	for i, hash := range classHashes {
 		dc, err := s.Class(hash)
 		if err != nil {
+			if i >= declaredCount && errors.Is(err, db.ErrKeyNotFound) {
+				continue // class of a deployed contract that was never registered
+			}
 			return err
 		}
 
